@@ -489,6 +489,20 @@ def sp_count(interp, st, args, kwargs, node):
         g = g.fields["connection_list"]
     if isinstance(g, Grid) and g.count is not None:
         return g.count
+    if isinstance(g, Grid) and g.kind == "bool":
+        # no ghost count was kept for this array (e.g. after np.logical_not and slice stores): its number of True cells is still a definite
+        # number - an unknown between 0 and the size, the same unknown whenever the same array is mentioned
+        cache = interp.ctx.__dict__.setdefault("count_unknown", {})
+        key = g.arr.get_id()
+        if key not in cache:
+            c = z3.Int(V.fresh_name("count_of"))
+            size = 1
+            for d in g.dims:
+                size = size * to_z3(as_int(d))
+            cache[key] = (c, z3.And(c >= 0, c <= size))
+        c, fact = cache[key]
+        st.assume(fact)
+        return c
     raise Outside("count(): grid without ghost count", node)
 
 
